@@ -13,7 +13,8 @@ class Prop(SeqProp):
     anchors = ["windpyutils/structures/maps.py", "windpyutils/structures/span_set.py"]
     quick_cases = 600
     thorough_cases = 10000
-    rule = ("interval sets (touching, nested, degenerate single-point, inverted, unsorted; ints and halves, int/float mixed) "
+    rule = ("interval sets (touching, nested, degenerate single-point, inverted, unsorted; ints and halves, int/float mixed; "
+            "values including None, 0, '', (), False) "
             "and probes at every end, every midpoint and in every gap; constructor outcome, lookups, `in`, len and iteration "
             "compared with the Lean model and with a linear scan over the defining dict; non-trivial = at least two intervals")
     trusted_base = ["Lean 4.33.0 kernel", "axioms: propext, Classical.choice, Quot.sound (audited per theorem)",
